@@ -338,6 +338,8 @@ package trzsz
 //@   ensures [C07] fsMono()
 //@   ensures r1 == nil ==> r0 != nil
 //@   ensures forall r int {heap("string")[r]} :: r != old(ref(t.createdFiles)) && r <= old(alloc()) ==> heap("string")[r] == old(heap("string"))[r]
+//@   # C08: an existing file is cut to nothing exactly when the caller asked for it (O_RDWR|O_CREATE[|O_TRUNC])
+//@   before os.OpenFile assert [C08] (truncate ==> p1 == 578) && (!truncate ==> p1 == 66)
 //@ end
 
 //@ func trzszTransfer.doCreateDirectory
@@ -376,6 +378,7 @@ package trzsz
 //@   ensures [C07] fsMono()
 //@   ensures [C07,C09] r2 == nil ==> plainName(r1)
 //@   ensures r2 == nil && !noClobber(t) ==> r1 == fileName
+//@   before trzszTransfer.doCreateFile assert [C08] p1 == truncate
 //@ end
 
 //@ # everything the receiving side relies on between two file-system operations
@@ -399,6 +402,7 @@ package trzsz
 //@   ensures r2 == nil && srcFile.Archive ==> awWF(r0)
 //@   # lemma at each Join: every element after the first is a plain name
 //@   before filepath.Join assert [C07,C09] forall i int {p0[i]} :: 1 <= i && i < len(p0) ==> plainName(p0[i])
+//@   before trzszTransfer.doCreateFile assert [C08] p1 == truncate
 //@ end
 
 //@ # an archive writer unpacks into the destination of the transfer it belongs to
@@ -656,6 +660,9 @@ package trzsz
 //@   ensures [C09] recvWF09(t)
 //@   ensures [C07] recvWF07(t)
 //@   ensures [C10] recvWF10(t)
+//@   # C08: protocols before 3 always start the destination file from nothing
+//@   before trzszTransfer.createDirOrFile assert [C08] p2
+//@   before trzszTransfer.createFile assert [C08] p2
 //@ end
 
 //@ func trzszTransfer.recvFileNameV3
@@ -681,16 +688,88 @@ package trzsz
 //@   ensures tbWF(t.buffer)
 //@   ensures r1 == nil ==> r0 != nil && r0 > old(alloc())
 //@ end
+//@ func trzszTransfer.recvHashAck
+//@   requires t.buffer != nil && tbWF(t.buffer)
+//@   assigns fields(t.buffer), recvd, bufLen, bufCap, bufArr, elemsof("byte"), wlog, wlen
+//@   ensures nothingSent()
+//@   ensures tbWF(t.buffer)
+//@   ensures r1 == nil ==> r0 != nil && r0 > old(alloc())
+//@ end
 //@ func trzszTransfer.sendHashAck
 //@   assigns wlog, wlen
+//@   ensures othersKept(t)
 //@ end
+//@ func trzszTransfer.sendHash
+//@   assigns wlog, wlen
+//@   ensures othersKept(t)
+//@ end
+
+// ---- C08: prefix-hash resume (append.go) ----------------------------------------------------------
+
+//@ # the hasher h has absorbed exactly the first n bytes of file f
+//@ pure hashedPrefix(h int, f int, n int) bool = \
+//@     wlen[h] == n && (forall k int {wlog[h][k]} :: 0 <= k && k < n ==> wlog[h][k] == fdata[f][k])
+
+//@ # Receiving side.  Reading the existing file from its start, the hasher has always absorbed exactly
+//@ # the bytes of the file up to the read position; while every block so far matched, that position is
+//@ # matchStep.  A positive acknowledgement is sent only for the step just compared, with the hasher
+//@ # holding exactly that many leading bytes of the file.  On success the file is positioned at and cut
+//@ # to the same offset: the last step acknowledged as matching (0 if none).
 //@ func trzszTransfer.recvPrefixHash
 //@   nilable progress
 //@   requires t.buffer != nil && tbWF(t.buffer)
-//@   assigns fields(t.buffer), recvd, bufLen, bufCap, bufArr, elemsof("byte"), wlog, wlen
+//@   requires !typeis(t.writer, "*md5.digest")
+//@   assigns fields(t.buffer), recvd, bufLen, bufCap, bufArr, elemsof("byte"), wlog, wlen, fpos, fsize
 //@   ensures tbWF(t.buffer)
+//@   ensures [C08] r0 == nil && old(tgtFile.Size) > 0 && result_of("fileWriter.getFile", 0, 0) != nil ==> \
+//@       fsize[result_of("fileWriter.getFile", 1, 0)] == fpos[result_of("fileWriter.getFile", 1, 0)]
 //@   loop 1
 //@     invariant tbWF(t.buffer)
+//@     invariant [C08] 0 <= matchStep
+//@     invariant [C08] old(fpos)[file] == 0 ==> matchStep <= wlen[hasher] && fpos[file] == wlen[hasher] && \
+//@         hashedPrefix(hasher, file, wlen[hasher]) && (match ==> wlen[hasher] == matchStep)
+//@   before trzszTransfer.sendHashAck assert [C08] hashAck.Step == hash.Step
+//@   before trzszTransfer.sendHashAck assert [C08] hashAck.Match ==> hashAck.Step == matchStep
+//@   before trzszTransfer.sendHashAck assert [C08] hashAck.Match ==> hash.Hash == result_of("fmt.Sprintf", 0, 0)
+//@   before trzszTransfer.sendHashAck assert [C08] old(fpos)[file] == 0 && hashAck.Match ==> hashedPrefix(hasher, file, matchStep)
+//@   before os.File.Seek assert [C08] p0 == matchStep && p1 == 0
+//@   before os.File.Seek assert [C08] old(fpos)[file] == 0 ==> matchStep <= wlen[hasher] && hashedPrefix(hasher, file, wlen[hasher])
+//@   before os.File.Truncate assert [C08] p0 == matchStep && fpos[file] == matchStep
+//@ end
+
+//@ # Sending side: the offset the source is positioned at plus the number of bytes announced as still
+//@ # to be sent is the size of the source - nothing is skipped beyond the agreed step, nothing re-sent.
+//@ func trzszTransfer.sendPrefixHash
+//@   nilable progress, file
+//@   # (context.Cause is only called here on a cancelled context, for which it documents a non-nil
+//@   # result; the sequential proof cannot see that, hence the two extra premises)
+//@   ensures [C08] r1 == nil && old(tgtFile.Size) > 0 && file != nil && \
+//@       result_of("context.Cause", 0, 0) != nil && result_of("context.Cause", 1, 0) != nil ==> fpos[file] + r0 == srcFile.Size
+//@   ensures [C08] old(tgtFile.Size) <= 0 || file == nil ==> r1 == nil && r0 == old(srcFile.Size) && fpos == old(fpos)
+//@   before os.File.Seek assert [C08] p1 == 0
+//@ end
+
+//@ # The hashing worker: every hash it advertises for a step is the digest state after absorbing exactly
+//@ # that many bytes, read consecutively from the file, never beyond the common size.
+//@ func trzszTransfer.pipelineSendHash$1
+//@   requires !typeis(t.writer, "*md5.digest")
+//@   loop 1
+//@     invariant [C08] 0 <= step && (step <= size || step == 0)
+//@     invariant [C08] wlen[hasher] == step && fpos[file] == old(fpos)[file] + step
+//@     invariant [C08] old(fpos)[file] == 0 ==> hashedPrefix(hasher, file, step)
+//@   before trzszTransfer.sendHash#0 assert [C08] hash.Step == step && !hash.Over
+//@   before trzszTransfer.sendHash#0 assert [C08] 0 <= step && step <= size
+//@   before trzszTransfer.sendHash#0 assert [C08] wlen[hasher] == step
+//@   before trzszTransfer.sendHash#0 assert [C08] old(fpos)[file] == 0 ==> hashedPrefix(hasher, file, step)
+//@ end
+
+//@ # The acknowledgement reader: the step it reports is the last one the receiver acknowledged as
+//@ # matching (0 if none) and never exceeds the common size.
+//@ func trzszTransfer.pipelineRecvHashAck$1
+//@   requires t.buffer != nil && tbWF(t.buffer)
+//@   loop 1
+//@     invariant tbWF(t.buffer)
+//@     invariant [C08] matchStep < size || matchStep == 0
 //@ end
 
 // ===========================================================================
